@@ -17,7 +17,7 @@ Line protocol for C13 (sections separated by ` | `; tables in the forest wire fo
 * `c13.round <q>` → `roundHalfEven q`;  `c13.count <total> <res>` → `none | n`
 * `c13.dsg <q|inf> <pres ids,|-|none> <soma ids,|-> | <t>` (`none` = `preserve_nodes=None`, `-` = empty) → `ERR:value` (factor ≤ 1) or the canonical topology of
   `downsampleNeuronG`/`downsampleG walkRule0` (the as-written model: float factor, `preserve_nodes=None`, soma list)
-  followed by ` # ` and the topology of `downsample t ⌈q⌉ (pres ++ soma)` (equal by `Props.C13.gen_downsample_is_model`)
+  followed by ` # ` and the topology of `downsample t ⌊q⌋ (pres ++ soma)` (equal by `Props.C13.gen_downsample_is_model`)
 * `c13.attach <tol> | <old id:x,y,z …> | <new id:x,y,z …> | <somaA>/<somaB> | <connA>/<connB> | <tagsA>/<tagsB>` with
   lists `i,j,…` (`-` = None) and tags `name=i,j;name=…` → `exact=<attachOKB> tol=<tolerant> model=<reattachG = B> ties=<n>`
 * `c13.nearestidx <d0,d1,…> | <s s …>` → per `s` the admissible knot indices of `kind='nearest'` (`j` or `j,j+1` half-way)
@@ -176,7 +176,7 @@ def run (cmd rest : String) : Option String :=
       match downsampleNeuronG .le 1 walkRule0 t q pres soma with
       | none => pure "ERR:value"
       | some u =>
-        pure (showTopo u ++ " # " ++ showTopo (downsample t (q.map ceilNat) (pres.getD [] ++ soma)))
+        pure (showTopo u ++ " # " ++ showTopo (downsample t (q.map floorNat) (pres.getD [] ++ soma)))
     | _ => none
   | "attach" =>
     match rest.splitOn "|" with
